@@ -15,6 +15,10 @@ namespace c20 {
         template <typename C> static C* make( Seq const& ) { return new C( A, B ); }
         static std::string str() { return "ctor=" + std::to_string( A ) + "," + std::to_string( B ); }
     };
+    template <size_t A, size_t B, size_t C3> struct mk3 {
+        template <typename C> static C* make( Seq const& ) { return new C( A, B, C3 ); }
+        static std::string str() { return "ctor=" + std::to_string( A ) + "," + std::to_string( B ) + "," + std::to_string( C3 ); }
+    };
     template <size_t A> struct mk1 {
         template <typename C> static C* make( Seq const& ) { return new C( A ); }
         static std::string str() { return "ctor=" + std::to_string( A ); }
